@@ -7,12 +7,15 @@
   on any right-hand side below), so it cannot be stale, is trivially deterministic and has no state
   that could accumulate.
 
-  The *datatypes* of workbooks (`Fx`, `Cell`, `Range`, `MState`, `Sem`, `Res`) are the ones declared
-  in `Model/Evaluator.lean` — that import is for the types only; none of its evaluation functions
-  (`evalCell`, `evalFx`, `evalRef`, `evaluate`, `fresh`, `erase`, stores, contexts) is used here.  The
-  empty-cell cut-off of the range walk (`MAX_EMPTY`) is a parameter `K`: the properties hold for any.
+  The *datatypes* of workbooks (`Fx`, `Cell`, `Range`, `MState`, `Sem`, `Res`) and the three dictionary
+  accessors `MState.cell?` / `range?` / `resolve` are the ones declared in `Model/Evaluator.lean` — that
+  import is for these only; none of its evaluation functions (`evalCell`, `evalFx`, `evalRef`,
+  `evaluate`, `fresh`, `erase`, stores, contexts, `isEmptyValue`, `toArray`) is used here; from
+  `Model/C04.lean` only the datatype `Op` of API calls is used.  The empty-cell cut-off of the range
+  walk (`MAX_EMPTY`) is a parameter `K`: the properties hold for any.
 -/
 import XlVerif.Model.Evaluator
+import XlVerif.Model.C04
 namespace XlVerif.Spec.C04
 open XlVerif
 open XlVerif.Model.Evaluator (Addr Fx Cell Range MState Sem Res AppR ExcKind)
@@ -125,5 +128,32 @@ def cellVal (K : Nat) (sem : Sem) (m : MState) : Nat → List Addr → Addr → 
 
 /-- the value a freshly compiled workbook with the inputs of `m` gives for `a` -/
 def value (K : Nat) (sem : Sem) (fuel : Nat) (m : MState) (a : Addr) : Res := cellVal K sem m fuel [] a
+
+/-! ### histories: the reference keeps the inputs only -/
+
+def lookup {β : Type} (k : Addr) : List (Addr × β) → Option β
+  | [] => none
+  | (k', v) :: rest => if k = k' then some v else lookup k rest
+
+/-- replace the value of the (first) cell stored under `a` -/
+def replaceValue (a : Addr) (v : V) : List (Addr × Cell) → List (Addr × Cell)
+  | [] => []
+  | (k, c) :: rest => if a = k then (k, { c with value := v }) :: rest else (k, c) :: replaceValue a v rest
+
+/-- the user sets an input, by address or by defined name: the cell's value is replaced; an address
+    that is not in the workbook becomes a new constant cell -/
+def setInput (m : MState) (a : Addr) (v : V) : MState :=
+  let a := match lookup a m.names with | some t => t | none => a
+  match lookup a m.cells with
+  | some _ => { m with cells := replaceValue a v m.cells }
+  | none => { m with cells := m.cells ++ [(a, { value := v, formula := none })] }
+
+/-- the results of the `evaluate` calls of a history: each is the value of the cell in a workbook
+    holding the inputs set so far -/
+def results (K : Nat) (sem : Sem) (fuel : Nat) : MState → List XlVerif.Model.C04.Op → List Res
+  | _, [] => []
+  | m, .set a v :: rest => results K sem fuel (setInput m a v) rest
+  | m, .eval a :: rest => value K sem fuel m a :: results K sem fuel m rest
+  | m, .get _ :: rest => results K sem fuel m rest
 
 end XlVerif.Spec.C04
